@@ -727,8 +727,13 @@ func shrinkCmd(id string, p Prop, in, out string, args []string) int {
 		return v.Violation && v.Known == "" && v.Discard == "" && (class == "" || v.Class == class)
 	}
 	if !failsSub(c) {
-		fmt.Fprintln(os.Stderr, "shrink: the input case does not fail in a fresh process")
-		return 2
+		// the class of a violation may depend on process history (e.g. parser-index values):
+		// accept any class of this property's violations from here on
+		class = ""
+		if !failsSub(c) {
+			fmt.Fprintln(os.Stderr, "shrink: the input case does not fail in a fresh process")
+			return 2
+		}
 	}
 	steps := 0
 	for time.Now().Before(deadline) {
